@@ -513,6 +513,7 @@ int main(int argc, char** argv) {
 #endif
   vf::Stats& S = vf::stats();
   S.add("ev.incomplete", 0);
+  S.add("cases.collapsed_with_Z2_Z3_diagrams_different", 0);
   g_cnt.selfcheck_every = a.geti("selfcheck", 1000);
 
   if (!a.replay.empty()) {
